@@ -680,6 +680,30 @@ Extra:\n{self.extra_map}
             if not was_replaced:
                 raise ValueError(f"xfp_hex {xfp_to_hide} not found in psbt")
 
+    def _check_path_goes_through(self, named_pub, hdpub, where):
+        """The path stated for a key has to go through the xpub it is derived from"""
+        bin_path = named_pub.raw_path[4:]
+        depth = hdpub.depth
+        # the xpub knows its own depth and child number
+        if len(bin_path) < 4 * depth or (
+            depth
+            and little_endian_to_int(bin_path[4 * depth - 4 : 4 * depth])
+            != hdpub.child_number
+        ):
+            raise SuspiciousTransaction(
+                f"path {named_pub.root_path} of {where} does not go through xpub {hdpub}"
+            )
+        # where the PSBT states the path of this xpub, it is the start of the key's path
+        for hd_pub in self.hd_pubs.values():
+            if (
+                hd_pub.root_fingerprint == named_pub.root_fingerprint
+                and hd_pub.sec() == hdpub.sec()
+                and not hd_pub.is_ancestor(named_pub)
+            ):
+                raise SuspiciousTransaction(
+                    f"path {named_pub.root_path} of {where} does not start with {hd_pub.root_path}"
+                )
+
     def _describe_basic_multisig_inputs(self, hdpubkey_map):
         # These will be used for all inputs and change outputs
         inputs_quorum_m, inputs_quorum_n = None, None
@@ -746,6 +770,7 @@ Extra:\n{self.extra_map}
                         f"Root fingerprint {xfp} for input #{cnt} not in the hdpubkey_map you supplied"
                     )
 
+                self._check_path_goes_through(named_pub, hdpub, f"input #{cnt}")
                 trimmed_path = ltrim_path(named_pub.root_path, depth=hdpub.depth)
                 if hdpub.traverse(trimmed_path).sec() != named_pub.sec():
                     raise SuspiciousTransaction(
@@ -869,6 +894,7 @@ Extra:\n{self.extra_map}
                             "Do a sweep transaction (1-output) if you want this wallet to cosign."
                         )
 
+                    self._check_path_goes_through(named_pub, hdpub, f"output #{cnt}")
                     trimmed_path = ltrim_path(named_pub.root_path, depth=hdpub.depth)
                     if hdpub.traverse(trimmed_path).sec() != named_pub.sec():
                         raise SuspiciousTransaction(
